@@ -337,8 +337,24 @@ def okF01c (a : Arr) (ax : Axis) (n : Nat) : Bool :=
 /-- F01i: an explicit `child::` step applied to the dummy document -/
 def okF01i (m : Mode) (ax : Axis) (abbr : Bool) (n : Nat) : Bool := !explicitChildAtDummy m ax abbr n
 
-def stepSafe (m : Mode) (a : Arr) (ax : Axis) (abbr : Bool) (n : Nat) : Bool :=
-  okF01b a ax n && okF01c a ax n && okF01i m ax abbr n
+/-! The *exact* step-level triggers (`stepSafe_exact` in `EPV/Lemmas/AxesPath.lean`: the step of the
+model differs from the specified step **iff** one of them holds):
+  * F01b: `following::t` from an attribute / namespace node `n` **and** some non-attribute,
+    non-namespace node after `n` passes the test `t` (the specified result is not empty)
+  * F01c: `attribute::t` from an attribute node **and** that attribute passes `t`
+  * F01i: explicit `child::t` from the dummy document **and** the root element passes `t` -/
+def trigF01b (m : Mode) (a : Arr) (ax : Axis) (t : Test) (n : Nat) : Bool :=
+  ax == .following && isAN a n &&
+    (List.range a.length).any fun i => decide (n < i) && !isAN a i && matchTest m a .elem t i
+
+def trigF01c (m : Mode) (a : Arr) (ax : Axis) (t : Test) (n : Nat) : Bool :=
+  ax == .attribute && kd a n == .attr && matchTest m a .attr t n
+
+def trigF01i (m : Mode) (a : Arr) (ax : Axis) (t : Test) (abbr : Bool) (n : Nat) : Bool :=
+  explicitChildAtDummy m ax abbr n && matchTest m a .elem t (rootIdx m)
+
+def stepSafe (m : Mode) (a : Arr) (ax : Axis) (t : Test) (abbr : Bool) (n : Nat) : Bool :=
+  !trigF01b m a ax t n && !trigF01c m a ax t n && !trigF01i m a ax t abbr n
 
 def nodesOf : Val → List Nat
   | .nodes l => l
@@ -346,8 +362,8 @@ def nodesOf : Val → List Nat
 
 /-- `safeG ok e f`: every step evaluated while evaluating `e` at `f` satisfies `ok axis context`.
 Computed along the evaluation (contexts come from the model's own intermediate results). -/
-def safeG (ok : Axis → Bool → Nat → Bool) (m : Mode) (a : Arr) : Expr → Focus → Bool
-  | .step ax _ ab, f => ok ax ab f.item
+def safeG (ok : Axis → Test → Bool → Nat → Bool) (m : Mode) (a : Arr) : Expr → Focus → Bool
+  | .step ax t ab, f => ok ax t ab f.item
   | .pred e p, f =>
     safeG ok m a e f && (predFocus e (nodesOf (eval m a e f))).all (safeG ok m a p)
   | .slash l r, f =>
